@@ -866,6 +866,59 @@ example : Gen.rvBack 4 3 = 2 ∧ Gen.rvAtThrow 4 3 3 = true ∧ Gen.rvAtThrow 4 
     Gen.rvPushSize 4 3 = 4 ∧ Gen.rvPopCond 4 0 = false ∧ Gen.rvPopCond 4 1 = true ∧ Gen.rvEndOff 4 3 = 3 ∧ Gen.rvPushCheck 4 4 = false := by
   decide
 
+/-- the operators of `RandomAccessIteratorFacade` (as generated from iteratorfacades.hh, both branches of every free
+    operator) composed with the generated primitives of both ArrayList iterator classes are position arithmetic:
+    `< <= > >=` and `-` compare / subtract positions, `== !=` decide equality of positions, `+= -= + -` move by `±n`,
+    `it[n]` hands `n` on, `++it`/`--it` forward to `increment`/`decrement`, and `it++`/`it--` (also of
+    `ForwardIteratorFacade`, the base of the SLList iterators) return the copy taken *before* the step -/
+theorem gen_facade_refines (a b n : Int) (p q : Nat) :
+    (∀ dist, (dist = Gen.itDistanceTo ∨ dist = Gen.itDistanceToC) →
+      (Gen.facLt1 dist a b = true ↔ a < b) ∧ (Gen.facLt2 dist a b = true ↔ a < b) ∧
+      (Gen.facLe1 dist a b = true ↔ a ≤ b) ∧ (Gen.facLe2 dist a b = true ↔ a ≤ b) ∧
+      (Gen.facGt1 dist a b = true ↔ a > b) ∧ (Gen.facGt2 dist a b = true ↔ a > b) ∧
+      (Gen.facGe1 dist a b = true ↔ a ≥ b) ∧ (Gen.facGe2 dist a b = true ↔ a ≥ b) ∧
+      Gen.facDiff1 dist a b = a - b ∧ Gen.facDiff2 dist a b = a - b) ∧
+    (∀ eq, (eq = Gen.itEquals ∨ eq = Gen.itEqualsM ∨ eq = Gen.itEqualsC) →
+      (Gen.facEq1 eq p q = true ↔ p = q) ∧ (Gen.facEq2 eq p q = true ↔ p = q) ∧
+      (Gen.facNe1 eq p q = true ↔ p ≠ q) ∧ (Gen.facNe2 eq p q = true ↔ p ≠ q)) ∧
+    (Gen.itAdvance a (Gen.facPlusEqArg n) = a + n ∧ Gen.itAdvance a (Gen.facMinusEqArg n) = a - n ∧
+      Gen.itAdvance a (Gen.facPlusArg n) = a + n ∧ Gen.itAdvance a (Gen.facMinusArg n) = a - n ∧
+      Gen.itAdvanceC a (Gen.facPlusEqArg n) = a + n ∧ Gen.itAdvanceC a (Gen.facMinusEqArg n) = a - n ∧
+      Gen.itAdvanceC a (Gen.facPlusArg n) = a + n ∧ Gen.itAdvanceC a (Gen.facMinusArg n) = a - n ∧
+      Gen.facIndexArg n = n) ∧
+    (Gen.facPreInc = .increment ∧ Gen.facPreDec = .decrement ∧ Gen.fwdPreInc = .increment ∧
+      Gen.facPostIncReturnsOld = true ∧ Gen.facPostDecReturnsOld = true ∧ Gen.fwdPostIncReturnsOld = true) := by
+  refine ⟨?_, ?_, ?_, ?_⟩
+  · intro dist h
+    have hd : ∀ x y, dist x y = y - x := by
+      intro x y
+      rcases h with rfl | rfl
+      · exact GenTie.itDistanceTo x y
+      · exact GenTie.itDistanceToC x y
+    simp only [Gen.facLt1, Gen.facLt2, Gen.facLe1, Gen.facLe2, Gen.facGt1, Gen.facGt2, Gen.facGe1, Gen.facGe2, Gen.facDiff1,
+      Gen.facDiff2, hd, decide_eq_true_eq]
+    refine ⟨?_, ?_, ?_, ?_, ?_, ?_, ?_, ?_, ?_, ?_⟩ <;> first | trivial | omega
+  · intro eq h
+    have he : ∀ x y, eq x y = true ↔ x = y := by
+      intro x y
+      rcases h with rfl | rfl | rfl
+      · exact GenTie.itEquals x y
+      · exact GenTie.itEqualsM x y
+      · exact GenTie.itEqualsC x y
+    have he' : ∀ x y, eq x y = false ↔ x ≠ y := by
+      intro x y
+      have := he x y
+      cases hq : eq x y <;> simp_all
+    simp only [Gen.facEq1, Gen.facEq2, Gen.facNe1, Gen.facNe2, Bool.not_eq_true', he, he']
+    refine ⟨?_, ?_, ?_, ?_⟩ <;> first | trivial | exact Iff.rfl | (constructor <;> intro h <;> omega)
+  · simp only [GenTie.itAdvance, GenTie.itAdvanceC, Gen.facPlusEqArg, Gen.facMinusEqArg, Gen.facPlusArg, Gen.facMinusArg,
+      Gen.facIndexArg]
+    refine ⟨?_, ?_, ?_, ?_, ?_, ?_, ?_, ?_, ?_⟩ <;> first | trivial | omega
+  · decide
+
+example : Gen.facLt1 Gen.itDistanceTo 2 5 = true ∧ Gen.facGe2 Gen.itDistanceToC 2 5 = false ∧ Gen.facDiff1 Gen.itDistanceTo 7 3 = 4 ∧
+    Gen.itAdvance 5 (Gen.facMinusEqArg 2) = 3 ∧ Gen.facNe2 Gen.itEqualsM 3 3 = false := by decide
+
 end Generated
 
 end DV.C11
